@@ -679,6 +679,33 @@ func TestC14Fuzz(t *testing.T) {
 			for k := range doc {
 				doc[k] = byte(r.Intn(256))
 			}
+		} else if r.Chance(25) {
+			// structural damage: a stage item (or a whole section) emptied out, as an editor leaves it
+			lines := strings.Split(genCfg(r).yaml(), "\n")
+			var out []string
+			skipIndent := -1
+			for _, ln := range lines {
+				ind := len(ln) - len(strings.TrimLeft(ln, " "))
+				if skipIndent >= 0 {
+					if strings.TrimSpace(ln) != "" && ind > skipIndent {
+						continue // body of the emptied item
+					}
+					skipIndent = -1
+				}
+				t := strings.TrimSpace(ln)
+				if strings.HasPrefix(t, "- ") && r.Chance(30) {
+					out = append(out, ln[:ind]+kit.Pick(r, "-", "- ~", "- null", "- {}", "- []"))
+					skipIndent = ind
+					continue
+				}
+				if strings.HasSuffix(t, ":") && r.Chance(10) {
+					out = append(out, ln+kit.Pick(r, " ~", " null", " {}", " []", ""))
+					skipIndent = ind
+					continue
+				}
+				out = append(out, ln)
+			}
+			doc = []byte(strings.Join(out, "\n"))
 		} else {
 			y := genCfg(r).yaml()
 			doc = []byte(y)
